@@ -169,16 +169,18 @@ Proof.
 Qed.
 
 (* ---------------------------------------------------------------- the whole function *)
+Lemma Some_inj {A} (a b : A) : Some a = Some b -> a = b.
+Proof. congruence. Qed.
 Lemma ns_probs_weights data wt res :
   ns_probs data wt = Some res ->
   exists wtot, 0 < wtot /\ res = ns_cum wtot 0 (ns_sort (ns_entries 0 data wt)) /\
     Forall wnn (ns_entries 0 data wt).
 Proof.
   unfold ns_probs. cbv zeta. set (es := ns_entries 0 data wt).
-  set (defd := filter (fun e : nsentry => match snd (fst e) with Some _ => true | None => false end) es).
-  destruct (existsb (fun e : nsentry => qltb (snd e) 0) defd) eqn:Neg; [intro X; discriminate X|].
+  match goal with |- context [filter ?f es] => set (defd := filter f es) end.
+  match goal with |- context [existsb ?f defd] => destruct (existsb f defd) eqn:Neg end; [intro X; discriminate X|].
   destruct (qleb_spec (lsumr (map snd defd)) 0) as [Z|Z]; [intro X; discriminate X|].
-  intro H. injection H as <-.
+  intro H. apply Some_inj in H. subst res.
   assert (Hn : 0 < natQ (length defd)).
   { destruct defd as [|e r] eqn:E; [exfalso; apply Z; cbn; lra|]. cbn [length]. unfold natQ.
     replace 0 with (inject_Z 0) by reflexivity. rewrite <- Zlt_Qlt. lia. }
@@ -190,7 +192,76 @@ Proof.
   - apply Forall_forall. intros [[j [v|]] w] He; cbn [wnn]; [|exact I].
     destruct (Qlt_le_dec w 0) as [L|L]; [|exact L]. exfalso.
     assert (In (j, Some v, w) defd) by (unfold defd; apply filter_In; split; [exact He|reflexivity]).
-    assert (existsb (fun e : nsentry => qltb (snd e) 0) defd = true).
+    assert (existsb (fun e : nat * option Q * Q => qltb (snd e) 0) defd = true).
     { apply existsb_exists. exists (j, Some v, w). split; [assumption|]. apply qltb_true. exact L. }
     congruence.
 Qed.
+
+Lemma Forall_ns_sort (P : nsentry -> Prop) l : Forall P l -> Forall P (ns_sort l).
+Proof. rewrite !Forall_forall. intros H x Hx. apply H. apply ns_sort_in. exact Hx. Qed.
+
+(* order preservation of the probabilities: smaller value, or equal value and earlier position *)
+Theorem ns_probs_monotone data wt res i v p i' v' p' :
+  ns_probs data wt = Some res ->
+  In (i, Some v, Some p) res -> In (i', Some v', Some p') res ->
+  (v < v' \/ (v == v' /\ (i < i')%nat)) -> p <= p'.
+Proof.
+  intros H Hi Hi' Hlt. destruct (ns_probs_weights data wt res H) as (wtot & Hw & -> & Hnn).
+  apply (ns_cum_mono wtot Hw (ns_sort (ns_entries 0 data wt)) 0 (ns_sort_sorted data wt) (Forall_ns_sort _ _ Hnn)
+           i v p i' v' p' Hi Hi' Hlt).
+Qed.
+
+Lemma ns_entries_unit : forall data k, Forall wpos (ns_entries k data []).
+Proof.
+  induction data as [|d r IH]; intro k; cbn [ns_entries tl]; constructor; [|apply IH].
+  destruct d; cbn [wpos]; [reflexivity|exact I].
+Qed.
+
+(* without weights the probabilities are strictly ordered: distinct samples never share a score *)
+Theorem ns_probs_strict data res i v p i' v' p' :
+  ns_probs data [] = Some res ->
+  In (i, Some v, Some p) res -> In (i', Some v', Some p') res ->
+  (v < v' \/ (v == v' /\ (i < i')%nat)) -> p < p'.
+Proof.
+  intros H Hi Hi' Hlt. destruct (ns_probs_weights data [] res H) as (wtot & Hw & -> & _).
+  apply (ns_cum_strict wtot Hw (ns_sort (ns_entries 0 data [])) 0 (ns_sort_sorted data []) (Forall_ns_sort _ _ (ns_entries_unit data 0))
+           i v p i' v' p' Hi Hi' Hlt).
+Qed.
+
+(* undefined in, undefined out; and the listed values are the data *)
+Lemma ns_cum_na wt : forall l acc i o, In (i, None, o) (ns_cum wt acc l) -> o = None.
+Proof.
+  induction l as [|[[j [u|]] w] r IH]; intros acc i o H; cbn [ns_cum In] in H; [contradiction| |].
+  - destruct H as [H|H]; [discriminate|]. apply (IH _ _ _ H).
+  - destruct H as [H|H]; [congruence|]. apply (IH _ _ _ H).
+Qed.
+Lemma ns_cum_entry wt : forall l acc i d o, In (i, d, o) (ns_cum wt acc l) -> exists w, In (i, d, w) l.
+Proof.
+  induction l as [|[[j [u|]] w] r IH]; intros acc i d o H; cbn [ns_cum In] in H; [contradiction| |].
+  - destruct H as [H|H].
+    + exists w. left. congruence.
+    + destruct (IH _ _ _ _ H) as [w' Hw]. exists w'. right. exact Hw.
+  - destruct H as [H|H].
+    + exists w. left. congruence.
+    + destruct (IH _ _ _ _ H) as [w' Hw]. exists w'. right. exact Hw.
+Qed.
+Theorem ns_probs_values data wt res i d o :
+  ns_probs data wt = Some res -> In (i, d, o) res -> nth_error data i = Some d /\ (d = None -> o = None).
+Proof.
+  intros H Hi. destruct (ns_probs_weights data wt res H) as (wtot & Hw & -> & _).
+  split.
+  - destruct (ns_cum_entry _ _ _ _ _ _ Hi) as [w Hin]. apply (proj1 (ns_sort_in _ _)) in Hin.
+    apply ns_entries_spec in Hin. destruct Hin as [_ Hn]. rewrite Nat.sub_0_r in Hn. exact Hn.
+  - intros ->. apply (ns_cum_na _ _ _ _ _ Hi).
+Qed.
+
+(* composing with a non-decreasing quantile function gives order preserving scores *)
+Section Score.
+Variable G : Q -> Q.
+Hypothesis G_mono : forall a b, a <= b -> G a <= G b.
+Theorem normalscore_monotone data wt res i v p i' v' p' :
+  ns_probs data wt = Some res ->
+  In (i, Some v, Some p) res -> In (i', Some v', Some p') res ->
+  (v < v' \/ (v == v' /\ (i < i')%nat)) -> G p <= G p'.
+Proof. intros. apply G_mono. eapply ns_probs_monotone; eassumption. Qed.
+End Score.
